@@ -37,30 +37,33 @@ var (
 	evReg    = sim.RegisterEv(305, "register")
 	evShared = sim.RegisterEv(306, "shared")
 
-	cNontrivial  = simrt.RegisterCounter("nontrivial")
-	cOverwrite   = simrt.RegisterCounter("fault_buffer_overwritten_before_use")
-	cScribble    = simrt.RegisterCounter("fault_buffer_scribbled")
-	cSpareCap    = simrt.RegisterCounter("fault_slice_with_spare_capacity")
-	cDirtyObj    = simrt.RegisterCounter("fault_decode_into_used_value")
-	cArenaWrap   = simrt.RegisterCounter("fault_arena_slot_reused")
-	cRegDuring   = simrt.RegisterCounter("fault_registration_during_decode_work")
-	cFrames      = simrt.RegisterCounter("op_frames_received")
-	cWork        = simrt.RegisterCounter("op_frames_processed")
-	cSharedJobs  = simrt.RegisterCounter("op_shared_readonly_frames")
-	cCryptoOps   = simrt.RegisterCounter("op_exported_crypto_on_arena")
-	cReuseOps    = simrt.RegisterCounter("op_reuse_decodes")
-	cBandOps     = simrt.RegisterCounter("op_band_mutations")
-	cBandObs     = simrt.RegisterCounter("op_band_observations")
-	cText        = simrt.RegisterCounter("probe_unmarshal_text")
-	cJoinAccept  = simrt.RegisterCounter("probe_join_accept_decrypt_on_arena")
-	cUnaligned   = simrt.RegisterCounter("probe_crypto_len_not_multiple_of_16")
-	cReuseTypes  = simrt.RegisterCounter("probe_reuse_types_exercised")
-	cStaleBefore = simrt.RegisterCounter("probe_worker_ran_after_buffer_reuse")
-	cScribbleOwn = simrt.RegisterCounter("fault_owner_overwrites_its_decoded_frame")
-	cOtherFrames = simrt.RegisterCounter("op_non_data_frames_received")
-	cSharedBytes = simrt.RegisterCounter("op_shared_input_decoded_by_two_workers")
-	cSettled     = simrt.RegisterCounter("op_observations_repeated_in_quiescence")
-	cFunctional  = simrt.RegisterCounter("probe_functional_mismatch_not_judged")
+	cNontrivial   = simrt.RegisterCounter("nontrivial")
+	cOverwrite    = simrt.RegisterCounter("fault_buffer_overwritten_before_use")
+	cScribble     = simrt.RegisterCounter("fault_buffer_scribbled")
+	cSpareCap     = simrt.RegisterCounter("fault_slice_with_spare_capacity")
+	cDirtyObj     = simrt.RegisterCounter("fault_decode_into_used_value")
+	cArenaWrap    = simrt.RegisterCounter("fault_arena_slot_reused")
+	cRegDuring    = simrt.RegisterCounter("fault_registration_during_decode_work")
+	cFrames       = simrt.RegisterCounter("op_frames_received")
+	cWork         = simrt.RegisterCounter("op_frames_processed")
+	cSharedJobs   = simrt.RegisterCounter("op_shared_readonly_frames")
+	cMarshalArena = simrt.RegisterCounter("op_marshal_and_mic_on_frames_over_the_arena")
+	cRegEdge      = simrt.RegisterCounter("op_registration_size_0_or_refused_cid")
+	cJoinReadonly = simrt.RegisterCounter("op_join_family_validate_marshal_readonly")
+	cCryptoOps    = simrt.RegisterCounter("op_exported_crypto_on_arena")
+	cReuseOps     = simrt.RegisterCounter("op_reuse_decodes")
+	cBandOps      = simrt.RegisterCounter("op_band_mutations")
+	cBandObs      = simrt.RegisterCounter("op_band_observations")
+	cText         = simrt.RegisterCounter("probe_unmarshal_text")
+	cJoinAccept   = simrt.RegisterCounter("probe_join_accept_decrypt_on_arena")
+	cUnaligned    = simrt.RegisterCounter("probe_crypto_len_not_multiple_of_16")
+	cReuseTypes   = simrt.RegisterCounter("probe_reuse_types_exercised")
+	cStaleBefore  = simrt.RegisterCounter("probe_worker_ran_after_buffer_reuse")
+	cScribbleOwn  = simrt.RegisterCounter("fault_owner_overwrites_its_decoded_frame")
+	cOtherFrames  = simrt.RegisterCounter("op_non_data_frames_received")
+	cSharedBytes  = simrt.RegisterCounter("op_shared_input_decoded_by_two_workers")
+	cSettled      = simrt.RegisterCounter("op_observations_repeated_in_quiescence")
+	cFunctional   = simrt.RegisterCounter("probe_functional_mismatch_not_judged")
 )
 
 const (
@@ -213,6 +216,15 @@ func operator(n int, sub uint64) {
 		up := r.Intn(2) == 0
 		cid := lorawan.CID(0x80 + r.Intn(4))
 		size := 1 + r.Intn(4)
+		switch r.Intn(8) {
+		case 0:
+			// "nothing to register" (size 0) on a CID no frame of this world uses
+			cid, size = lorawan.CID(0x90+r.Intn(4)), 0
+			simrt.Count(cRegEdge)
+		case 1:
+			cid = lorawan.CID(r.Intn(0x80)) // refused: not a proprietary CID
+			simrt.Count(cRegEdge)
+		}
 		if err := lorawan.RegisterProprietaryMACCommand(up, cid, size); err != nil {
 			functional("register")
 		}
@@ -443,6 +455,25 @@ func processOther(j *otherJob) {
 			functional("ja.mic-after-decode")
 		}
 	}
+	// I5 for the join family: validating the MIC and the text / JSON encoders
+	// only inspect the frame (whether the MIC verifies is not the subject)
+	before := sim.DeepSig(j.ref)
+	var eui lorawan.EUI64
+	switch j.ref.MHDR.MType {
+	case lorawan.JoinRequest, lorawan.RejoinRequest:
+		j.ref.ValidateUplinkJoinMIC(lorawan.AES128Key(j.key))
+		j.phy.ValidateUplinkJoinMIC(lorawan.AES128Key(j.key))
+	case lorawan.JoinAccept:
+		j.ref.ValidateDownlinkJoinMIC(lorawan.JoinRequestType, eui, 1, lorawan.AES128Key(j.key))
+		j.phy.ValidateDownlinkJoinMIC(lorawan.RejoinRequestType0, eui, 2, lorawan.AES128Key(j.key))
+	}
+	j.ref.MarshalText()
+	j.ref.MarshalJSON()
+	j.ref.MarshalBinary()
+	simrt.Count(cJoinReadonly)
+	if after := sim.DeepSig(j.ref); after != before {
+		simrt.Report("readonly.modified:Validate/Marshal", fmt.Sprintf("validate/marshal changed a join-family frame: before %s after %s", before, after))
+	}
 }
 
 // sendSharedBytes hands ONE immutable input buffer to two workers, which
@@ -563,7 +594,9 @@ func worker(wd *world, id int, sub uint64, extra int) {
 
 func localOp(wd *world, id int, r *sim.Rand, bw *bandWatch) {
 	simrt.Progress()
-	switch r.Intn(4) {
+	switch r.Intn(5) {
+	case 4:
+		marshalOnArena(wd, id, r)
 	case 0:
 		cryptoOnArena(wd, id, r)
 	case 1:
@@ -949,6 +982,116 @@ func joinAcceptOnArena(wd *world, id int, r *sim.Rand) {
 			}
 			if reg[i] != snapshot[i] {
 				simrt.Report("spill:DecryptJoinAcceptPayload", fmt.Sprintf("DecryptJoinAcceptPayload modified byte at offset %d of the caller's arena (ciphertext window %d..%d)", i, off, off+len(ct)))
+				break
+			}
+		}
+	}
+}
+
+// quiet runs f and reports whether it panicked (the step-cap unwinding of the
+// simulator passes through).
+func quiet(f func()) (panicked bool) {
+	defer func() {
+		if r := recover(); r != nil {
+			if _, ok := r.(simrt.StepCapPanic); ok {
+				panic(r)
+			}
+			panicked = true
+		}
+	}()
+	f()
+	return false
+}
+
+// marshalOnArena: frames whose byte-slice members (an undecoded FOpts or
+// FRMPayload, a proprietary payload, a CFList carried as raw bytes) are
+// windows of the worker's arena region with spare capacity behind them go
+// through the operations that only inspect a frame - marshal (binary, text,
+// JSON), set / validate MIC. Nothing in the arena may change: not the windows
+// (they are part of the inspected frame) and not the memory around them.
+func marshalOnArena(wd *world, id int, r *sim.Rand) {
+	simrt.Count(cMarshalArena)
+	reg := wd.arena[id*wd.region : (id+1)*wd.region]
+	fillCanary(reg, r)
+	next := 0
+	window := func(n int) []byte {
+		gap := r.Intn(8)
+		if next+gap+n > len(reg)-40 {
+			return make([]byte, n)
+		}
+		next += gap
+		w := reg[next : next+n] // capacity runs on into the region
+		next += n
+		return w
+	}
+	var key spec.Key
+	r.Fill(key[:])
+	var eui lorawan.EUI64
+	r.Fill(eui[:])
+	var phy lorawan.PHYPayload
+	what := ""
+	var ops []func()
+	switch r.Intn(3) {
+	case 0:
+		what = "join-accept with a raw CFList"
+		n := []int{15, 15, 15, 0, 10, 16, 24}[r.Intn(7)]
+		ja := &lorawan.JoinAcceptPayload{JoinNonce: lorawan.JoinNonce(r.Intn(1 << 24)), RXDelay: uint8(r.Intn(16)),
+			CFList: &lorawan.CFList{CFListType: lorawan.CFListType(r.Intn(2)), Payload: &lorawan.DataPayload{Bytes: window(n)}}}
+		r.Fill(ja.HomeNetID[:])
+		r.Fill(ja.DevAddr[:])
+		phy = lorawan.PHYPayload{MHDR: lorawan.MHDR{MType: lorawan.JoinAccept}, MACPayload: ja}
+		ops = append(ops,
+			func() { phy.SetDownlinkJoinMIC(lorawan.JoinRequestType, eui, 5, lorawan.AES128Key(key)) },
+			func() { phy.ValidateDownlinkJoinMIC(lorawan.JoinRequestType, eui, 5, lorawan.AES128Key(key)) },
+			func() { ja.MarshalBinary() },
+			func() { ja.CFList.MarshalBinary() })
+	case 1:
+		what = "proprietary frame"
+		phy = lorawan.PHYPayload{MHDR: lorawan.MHDR{MType: lorawan.Proprietary}, MACPayload: &lorawan.DataPayload{Bytes: window(r.Intn(40))}}
+	default:
+		what = "data frame with undecoded FOpts / FRMPayload"
+		up := r.Intn(2) == 0
+		mt := lorawan.UnconfirmedDataDown
+		if up {
+			mt = lorawan.ConfirmedDataUp
+		}
+		mp := &lorawan.MACPayload{FHDR: lorawan.FHDR{FCnt: uint32(r.Intn(1 << 20))}}
+		r.Fill(mp.FHDR.DevAddr[:])
+		if r.Intn(2) == 0 {
+			mp.FHDR.FOpts = []lorawan.Payload{&lorawan.DataPayload{Bytes: window(1 + r.Intn(15))}}
+		}
+		if r.Intn(3) != 0 {
+			port := uint8(r.Intn(3))
+			mp.FPort = &port
+			mp.FRMPayload = []lorawan.Payload{&lorawan.DataPayload{Bytes: window(r.Intn(60))}}
+		}
+		phy = lorawan.PHYPayload{MHDR: lorawan.MHDR{MType: mt}, MACPayload: mp}
+		ver := lorawan.MACVersion(r.Intn(2))
+		k2 := lorawan.AES128Key(key)
+		if up {
+			ops = append(ops,
+				func() { phy.SetUplinkDataMIC(ver, 3, 1, 2, k2, k2) },
+				func() { phy.ValidateUplinkDataMIC(ver, 3, 1, 2, k2, k2) },
+				func() { phy.ValidateUplinkDataMICF(k2) })
+		} else {
+			ops = append(ops,
+				func() { phy.SetDownlinkDataMIC(ver, 3, k2) },
+				func() { phy.ValidateDownlinkDataMIC(ver, 3, k2) })
+		}
+	}
+	ops = append(ops, func() { phy.MarshalBinary() }, func() { phy.MarshalText() }, func() { phy.MarshalJSON() })
+	snapshot := append([]byte(nil), reg...)
+	for i := 0; i < 3; i++ {
+		op := ops[r.Intn(len(ops))]
+		if quiet(op) {
+			functional("marshal-on-arena:panic") // totality is not this property's subject
+			return
+		}
+	}
+	if !bytes.Equal(reg, snapshot) {
+		for i := range reg {
+			if reg[i] != snapshot[i] {
+				simrt.Report("spill:Marshal/Validate", fmt.Sprintf("marshal / MIC operations on a %s changed byte %d of the caller's memory that holds the frame's byte slices (frame %s)", what, i, sim.DeepSig(&phy)))
 				break
 			}
 		}
